@@ -41,6 +41,11 @@ def run(ctx):
     r034(ctx)
     r035(ctx, 'R03.5')
     r036(ctx)
+    with ctx.rule('R03.7', 'segmentation independence of the frame reader (shared with C06)', floor=10) as r:
+        from rules import arms as A
+        A.include(ctx, r, 'c06', 'R06.1')
+        A.include(ctx, r, 'c06', 'R06.2')
+        A.include(ctx, r, 'c06', 'R06.3')
 
 
 def find_path(rows, *frags):
